@@ -248,6 +248,20 @@ pub fn check(case: &CplxCase, claim: Claim, out: &mut Outcome) -> Result<(), Fai
         let bh = stack(&b);
         let ch = stack(cf);
         if claim == Claim::Coefficients {
+            // reference pipeline (as for the real checks, DESIGN 10.3): nalgebra's own SVD and solve on
+            // the same complex matrix — its rare inaccurate decompositions (seen: a normal-equation
+            // residual of 3e8 u on a 5x2 complex matrix of condition 1.2, silence seed 12006) widen the
+            // bound by what the decomposition delivers on this very matrix
+            let ch_ref: Option<Mat> = {
+                let kdim = n.min(m).max(1);
+                match nalgebra::linalg::SVD::try_new_unordered(a.clone(), true, true, 5.0 * f64::EPSILON, 1000 * kdim) {
+                    Some(mut rs) if rs.singular_values.iter().all(|v| v.is_finite()) => {
+                        rs.sort_by_singular_values();
+                        rs.solve(&b, eps).ok().map(|c| stack(&c))
+                    }
+                    _ => None,
+                }
+            };
             // normal equations of the embedded real problem, column by column
             for col in 0..s {
                 let r: Vec<f64> = {
@@ -255,7 +269,12 @@ pub fn check(case: &CplxCase, claim: Claim, out: &mut Outcome) -> Result<(), Fai
                     bh.col(col).iter().zip(&ac.d).map(|(x, y)| x - y).collect()
                 };
                 let g = ah.t().mul(&Mat::col_vec(&r));
-                let bound = kf * u * smax * (norm2(bh.col(col)) + smax * norm2(ch.col(col)));
+                let ref_g = ch_ref.as_ref().map(|cr| {
+                    let ac = ah.mul(&Mat::col_vec(cr.col(col)));
+                    let r: Vec<f64> = bh.col(col).iter().zip(&ac.d).map(|(x, y)| x - y).collect();
+                    norm2(&ah.t().mul(&Mat::col_vec(&r)).d)
+                }).unwrap_or(0.0);
+                let bound = (kf * u * smax * (norm2(bh.col(col)) + smax * norm2(ch.col(col)))).max(4.0 * ref_g);
                 if !(norm2(&g.d) <= bound) {
                     return Err(Fail::new("c01.complex.normal_equations", format!("{tag}: column {col}: |A^H (b - A c)| = {:e} exceeds {bound:e} (|A| = {smax:e}, kappa = {kappa:e}): the coefficients do not minimise |W (y - Phi c)| for a complex model", norm2(&g.d))));
                 }
@@ -263,7 +282,8 @@ pub fn check(case: &CplxCase, claim: Claim, out: &mut Outcome) -> Result<(), Fai
                 if kf * u * kappa <= 1e-3 {
                     let co = sv.solve_rank(&Mat::col_vec(bh.col(col)), 2 * m);
                     let d: Vec<f64> = co.d.iter().zip(ch.col(col)).map(|(x, y)| x - y).collect();
-                    let bound = 16.0 * kf * u * kappa * (norm2(&co.d) + norm2(bh.col(col)) / smin);
+                    let ref_d = ch_ref.as_ref().map(|cr| norm2(&co.d.iter().zip(cr.col(col)).map(|(x, y)| x - y).collect::<Vec<f64>>())).unwrap_or(0.0);
+                    let bound = (16.0 * kf * u * kappa * (norm2(&co.d) + norm2(bh.col(col)) / smin)).max(4.0 * ref_d);
                     if !(norm2(&d) <= bound) {
                         return Err(Fail::new("c01.complex.forward", format!("{tag}: column {col}: coefficients differ from the least-squares solution by {:e} (bound {bound:e})", norm2(&d))));
                     }
@@ -277,16 +297,29 @@ pub fn check(case: &CplxCase, claim: Claim, out: &mut Outcome) -> Result<(), Fai
             if jac.shape() != (n * s, case.k) {
                 return Err(Fail::new("c03.complex.shape", format!("{tag}: Jacobian is {:?}, expected {}x{}", jac.shape(), n * s, case.k)));
             }
+            // reference pipeline for the projector: U of nalgebra's own SVD of the same matrix
+            let u_ref: Option<DMatrix<C>> = {
+                let kdim = n.min(m).max(1);
+                match nalgebra::linalg::SVD::try_new_unordered(a.clone(), true, true, 5.0 * f64::EPSILON, 1000 * kdim) {
+                    Some(mut rs) if rs.singular_values.iter().all(|v| v.is_finite()) => {
+                        rs.sort_by_singular_values();
+                        rs.u
+                    }
+                    _ => None,
+                }
+            };
             for k in 0..case.k {
                 let dk = case.dphi(&alpha, k);
                 let v = DMatrix::from_fn(n, s, |i, col| wv[i] * (0..m).map(|q| dk[(i, q)] * cf[(q, col)]).sum::<C>());
                 let jk = DMatrix::from_fn(n, s, |i, col| jac[(i + col * n, k)]);
                 let (vh, jh) = (stack(&v), stack(&jk));
+                let jh_ref: Option<Mat> = u_ref.as_ref().map(|ur| stack(&(ur * (ur.adjoint() * &v) - &v)));
                 for col in 0..s {
                     let vn = norm2(vh.col(col));
                     // (a) every column is orthogonal to the range of W Phi (complex inner product)
                     let g = ah.t().mul(&Mat::col_vec(jh.col(col)));
-                    let bound = kf * u * smax * vn;
+                    let ref_a = jh_ref.as_ref().map(|jr| norm2(&ah.t().mul(&Mat::col_vec(jr.col(col))).d)).unwrap_or(0.0);
+                    let bound = (kf * u * smax * vn).max(4.0 * ref_a);
                     if !(norm2(&g.d) <= bound) {
                         return Err(Fail::new("c03.complex.orthogonal_to_range", format!("{tag}: Jacobian column {k}, block {col}: |A^H J_k| = {:e} > {bound:e} (|A| = {smax:e}, |W D_k c| = {vn:e}): for a complex model the column is not orthogonal to the range of W Phi", norm2(&g.d))));
                     }
@@ -295,7 +328,8 @@ pub fn check(case: &CplxCase, claim: Claim, out: &mut Outcome) -> Result<(), Fai
                         let vm = Mat::col_vec(vh.col(col));
                         let want = sv.project_range(&vm, 2 * m).sub(&vm);
                         let d: Vec<f64> = want.d.iter().zip(jh.col(col)).map(|(x, y)| x - y).collect();
-                        let bound = 16.0 * kf * u * kappa * vn;
+                        let ref_c = jh_ref.as_ref().map(|jr| norm2(&want.d.iter().zip(jr.col(col)).map(|(x, y)| x - y).collect::<Vec<f64>>())).unwrap_or(0.0);
+                        let bound = (16.0 * kf * u * kappa * vn).max(4.0 * ref_c);
                         if !(norm2(&d) <= bound) {
                             return Err(Fail::new("c03.complex.kaufman_formula", format!("{tag}: Jacobian column {k}, block {col}: |J_k - (-(I-P) W D_k c)| = {:e} > {bound:e}", norm2(&d))));
                         }
